@@ -144,6 +144,7 @@ reg(Spec('C14', ['c14:C14'],
 reg(Spec('C06', ['c06:C06'],
          quick=[('ADV', 3000), ('DUPLEX', 1000), ('RACE', 1000), ('MISUSE', 800)],
          thorough=[('ADV', 80000), ('DUPLEX', 20000), ('RACE', 20000), ('MISUSE', 20000), ('UPGRADE', 5000)],
+         overrides={'ADV': {'adv_repromise': 0.1, 'push': 0.12}},
          rule=R_RUN + 'non-trivial = at least one (role x stream-state x frame-or-call) cell of the RFC reference table was judged; '
               'the probes list every distinct cell reached' + R_DISTINCT,
          assumptions=['sampled histories with measured coverage of the reference table, not exhaustive enumeration to a depth bound',
